@@ -40,7 +40,10 @@ def find_windows(ctx):
     # the C-terminal residue of a chain (carries OXT) with the two residues before it
     blocks = [b for b in C.residue_blocks(C.atom_lines("1HPX")) if b[0] != "TER" and b[1][0].startswith("ATOM") and b[0][0] == "A"]
     if blocks and any(ln[12:16].strip() == "OXT" for ln in blocks[-1][1]):
-        wins["CTERM"] = ("1HPX", [ln for b in blocks[-3:] for ln in b[1]], blocks[-1][0])
+        # ... preceded by a stretch of the same chain that holds acids (Asp 25, 29, 30): terms that are summed over the
+        # acids of a structure (backbone reorganisation) are exercised too
+        acid = [ln for b in blocks[23:31] for ln in b[1]]
+        wins["CTERM"] = ("1HPX", acid + [C.TER] + [ln for b in blocks[-3:] for ln in b[1]], blocks[-1][0])
     return wins
 
 
